@@ -206,3 +206,32 @@ def ordinal(d):
 
 def date_of(n):
     return dt.date.fromordinal(n)
+
+
+def tla(obj):
+    """Python value -> TLA+ expression text (dict -> record, list/tuple -> sequence, set -> set)."""
+    if isinstance(obj, bool):
+        return "TRUE" if obj else "FALSE"
+    if isinstance(obj, int):
+        return str(obj)
+    if isinstance(obj, str):
+        assert '"' not in obj and "\\" not in obj, obj
+        return '"' + obj + '"'
+    if isinstance(obj, dict):
+        if not obj:
+            return "<<>>"
+        return "[" + ", ".join("%s |-> %s" % (k, tla(v)) for k, v in obj.items()) + "]"
+    if isinstance(obj, (list, tuple)):
+        return "<<" + ", ".join(tla(v) for v in obj) + ">>"
+    if isinstance(obj, (set, frozenset)):
+        return "{" + ", ".join(tla(v) for v in sorted(obj, key=repr)) + "}"
+    raise TypeError(type(obj))
+
+
+def gen_module(name, defs):
+    """a TLA+ module of constant definitions: defs = {Name: python value}"""
+    lines = ["---- MODULE %s ----" % name, "EXTENDS Integers", "\\* generated by the harness for one run; literal definitions instead of cfg constants"]
+    for k, v in defs.items():
+        lines.append("%s == %s" % (k, tla(v)))
+    lines.append("====")
+    return "\n".join(lines) + "\n"
